@@ -12,7 +12,7 @@ faulthandler.register(signal.SIGUSR1, all_threads=True)
 import joblib  # noqa: E402
 from joblib import Parallel, delayed  # noqa: E402
 
-from vlib.c04_tasks import Boom, init_worker, tagged_task  # noqa: E402
+from vlib.c04_tasks import EXC, Boom, init_worker, tagged_task  # noqa: E402
 
 
 def children():
@@ -32,7 +32,7 @@ def children():
 
 def main():
     cfg = json.load(open(sys.argv[1]))
-    kw = dict(n_jobs=cfg["J"], backend=cfg["backend"], batch_size=cfg["b"], pre_dispatch=cfg["pd"], return_as=cfg["ra"])
+    kw = dict(n_jobs=cfg["J"], backend=cfg["backend"], batch_size=cfg["b"], pre_dispatch=cfg["pd"], return_as=cfg["ra"], verbose=cfg.get("verbose", 0))
     if cfg["backend"] in ("loky", "multiprocessing"):
         # options given to Parallel itself must still be in force after a failed call re-created the workers
         kw.update(initializer=init_worker, initargs=("W",))
@@ -50,8 +50,8 @@ def main():
     def gen(tag, c):
         for i in range(c["n"]):
             if c["kind"] == "iter" and i == c["iter_fail_at"]:
-                raise Boom("iter", tag, i)
-            yield delayed(tagged_task)(i, tag, c["kind"] == "task" and i in c["fail_at"], 0.002 if i % 3 == 0 else 0)
+                raise EXC[c.get("exc", "Boom")]("iter", tag, i)
+            yield delayed(tagged_task)(i, tag, c.get("exc", "Boom") if c["kind"] == "task" and i in c["fail_at"] else False, 0.002 if i % 3 == 0 else 0)
 
     def run():
         for k, c in enumerate(cfg["history"]):
@@ -63,7 +63,7 @@ def main():
                     o["out"] = list(p(RaisingIterable(Boom("iter", tag, -1)) if c["kind"] == "iterinit" else gen(tag, c)))
             except BaseException as e:  # noqa
                 o["exc_type"] = type(e).__name__
-                o["exc_args"] = list(e.args) if isinstance(e, Boom) else [str(e)[:200]]
+                o["exc_args"] = list(e.args) if type(e) in EXC.values() else [str(e)[:200]]
             calls.append(o)
             if k == 1:
                 base["threads"], base["children"] = threading.active_count(), children()
